@@ -102,4 +102,61 @@ theorem rootsAvoid_sound (tags mutexTags : List Nat) (fs : List Fn) (roots : Lis
   simp only [hasBit, hbit, Bool.not_true, Bool.or_false, Bool.not_eq_true'] at this
   exact this
 
+/-! ### Lock order -/
+
+/-- `m'` is acquired under `m` somewhere: lexically, or by a function reachable from a call made under `m`. -/
+def Edge (fs : List Fn) (m m' : Nat) : Prop :=
+  ∃ fn ∈ fs, (m, m') ∈ fn.heldAcq ∨
+    ∃ g h fnh, (m, g) ∈ fn.heldCalls ∧ Reach fs g h ∧ fs[h]? = some fnh ∧ m' ∈ fnh.acquires
+
+/-- A non-empty chain of order edges. -/
+inductive Chain (fs : List Fn) : Nat → Nat → Prop
+  | one {a b : Nat} : Edge fs a b → Chain fs a b
+  | cons {a b c : Nat} : Edge fs a b → Chain fs b c → Chain fs a c
+
+/-- What `acyclic` establishes: no mutex of a relevant tag lies on a cycle of order edges — over EVERY call
+path of the recorded call graph. -/
+theorem acyclic_sound (tags mutexTags : List Nat) (fs : List Fn) (hac : acyclic tags mutexTags fs = true)
+    {m : Nat} (hrel : relevant tags mutexTags m = true) : ¬ Chain fs m m := by
+  unfold acyclic at hac
+  simp only [Bool.and_eq_true] at hac
+  obtain ⟨⟨⟨⟨⟨hw, hc⟩, hin⟩, hcov⟩, htr⟩, hself⟩ := hac
+  generalize closure fs = r at hc hcov htr hself
+  generalize orderIter (orderSucc mutexTags.length fs r) 6 (orderSucc mutexTags.length fs r) = t at hcov htr hself
+  unfold inRange at hin
+  unfold orderCovers at hcov
+  unfold orderTrans at htr
+  simp only [Bool.and_eq_true, Bool.or_eq_true, Bool.not_eq_true', List.all_eq_true, decide_eq_true_eq, beq_iff_eq] at hin hcov htr hself
+  -- an edge is covered by t, and its ends are in range
+  have hedge : ∀ a b, Edge fs a b → (t.getD a 0).testBit b = true ∧ a < mutexTags.length ∧ b < mutexTags.length := by
+    intro a b ⟨fn, hfn, h⟩
+    have hcf := hcov fn hfn
+    have hif := hin fn hfn
+    rcases h with h | ⟨g, h, fnh, hheld, hreach, hh, hacq⟩
+    · have h1 := hcf.2 (a, b) h
+      have h2 := hif.1.2 (a, b) h
+      exact ⟨by simpa [hasBit] using h1, h2.1, h2.2⟩
+    · have hsub := hcf.1 (a, g) hheld
+      have hbit := closed_sound fs r hw hc hreach fnh hh b hacq
+      have h2 := hif.2 (a, g) hheld
+      have h3 := (hin fnh (List.mem_of_getElem? hh)).1.1 b hacq
+      exact ⟨testBit_of_and_eq hsub b hbit, h2, h3⟩
+  -- a chain is covered by t
+  have hchain : ∀ a c, Chain fs a c → (t.getD a 0).testBit c = true ∧ a < mutexTags.length := by
+    intro a c hch
+    induction hch with
+    | one e => exact ⟨(hedge _ _ e).1, (hedge _ _ e).2.1⟩
+    | cons e _ ih =>
+      obtain ⟨hab, ha, hb⟩ := hedge _ _ e
+      have := htr _ (List.mem_range.mpr ha) _ (List.mem_range.mpr hb)
+      rcases this with h | h
+      · simp only [hasBit, hab] at h; cases h
+      · exact ⟨testBit_of_and_eq h _ ih.1, ha⟩
+  intro hcyc
+  obtain ⟨hbit, hlt⟩ := hchain m m hcyc
+  have := hself m (List.mem_range.mpr hlt)
+  rcases this with h | h
+  · rw [hrel] at h; cases h
+  · simp only [hasBit, hbit] at h; cases h
+
 end FV.Locks
